@@ -20,6 +20,12 @@ CHECKS = {
  "C10": dict(cat="exploration", technique="exhaustive enumeration of every size n in dense windows around the internal widths (2^7, 2^8, 2^15, 2^16) for 35 construct families, self-checking programs with closed-form expected values, run on an overflow-checked and a release-like build",
     text="For each of 35 construct families (literals, argument/parameter lists, templates, patterns, chains, switch cases, class/enum members, sequences of statements/declarations/calls, distinct constants, jump distances, string/array lengths), alone and embedded between live temporaries, every size in the windows (quick: ~100 sizes per family; thorough: every n in 0..600 for register-bound families, windows of +-40 around 2^15/2^16 and a ladder to 100000 for the others) is compiled and run on both builds; accepted outcomes are the closed-form value or, for a single oversized construct, an explicit prepare() error; sequence families must never be refused. Complete within the stated size sets.",
     note="Closed forms are computed by the generator; a prepare()-time Err is taken as an explicit limit error. Sizes beyond 100000 are not covered.", ref="DESIGN.md section 5 C10"),
+ "C01": dict(cat="model_checking", technique="bounded exhaustive enumeration of closed program families (operator x operand alphabets, statement skeletons to depth 2-3, scope/pattern/class matrices, generator operation sequences, built-in x receiver x argument alphabets) plus replay of every edge of a reference-defined state graph (M-state) on the real interpreter, each compared with committed reference-engine observations",
+    text="Each family is a small closed alphabet enumerated completely up to a bound (quick 89 k programs, thorough 0.8 M incl. depth-2 expressions and depth-3 control-flow skeletons); the M-state family is an explicit state graph (14 k states / 43 k transitions at depth 3 over a 50-statement alphabet, de-duplicated on a canonical dump by the reference engine) whose every edge is replayed on tsrun from a fresh interpreter. The oracle is the reference engine's observation (value through an in-program canonical printer, console strings, error class); cases whose strict/sloppy reference results differ accept either. This reaches the operator x coercion x control-flow cross product no hand-written snippet samples.",
+    note="Trusted: node v20 as the ECMAScript reference on the restricted feature set (no error messages, locale/timezone, approximated Math, non-ISO dates). Bounded depth and alphabets. Known defects are recorded per root-cause cluster in known_findings/C01.*; a listed case failing differently is reported.", ref="DESIGN.md section 5 C01"),
+ "C16": dict(cat="exploration", technique="exhaustive enumeration of JSON document families (trees over leaf/key alphabets, all Unicode scalar values, escape forms, depth/width ladders) pushed through every host/script path of the real bridge and compared with an independent strict parser",
+    text="1.2 M (quick) / tens of millions (thorough) path results: every leaf under every key, all ordered key pairs and triples, all depth-2 trees over reduced alphabets, a number zoo, every Unicode scalar value raw/escaped/as key (quick: boundary ranges + every 257th), lone-surrogate and malformed escapes, nesting depths to 10 000/100 000 in isolated workers; paths: create_from_json->js_value_to_json, host value->script JSON.stringify, order-response path, JSON.parse->JSON.stringify (indent 0, 2, tab), JSON.parse->Complete value, and the same after rebuilding the value through member access. Oracle: output is well-formed per Python's json and equal as an unordered value with numeric comparison.",
+    note="Key order and -0 vs 0 are not demanded; lone surrogates may be refused; the host's own serde_json parse limits (depth 128) are outside the property.", ref="DESIGN.md section 5 C16"),
 }
 NA_DEFAULT = "check not built yet (build in progress; see DESIGN.md section 8)"
 NA = {}
